@@ -76,6 +76,10 @@ class AbsPath(VAbs):
             other = args[0]
             if self.role in (("src",), ("dst",)) and isinstance(other, AbsPath):
                 return [(st, AbsPath(self.role))]          # global / relative_path is the source, local / relative_path the destination
+            if self.role == ("local",) and isinstance(other, AbsPath):
+                return [(st, AbsPath(("dst",)))]
+            if self.role == ("local",) and isinstance(other, VStr):
+                return [(st, AbsPath(("local", "file")))]   # a file next to (not inside) the destination folder
             if self.role == ("dst",) and isinstance(other, VStr) and other.s in ("autocopy_start.txt", "autocopy_end.txt"):
                 return [(st, AbsPath(("dst", "start" if "start" in other.s else "end")))]
             return [(st, AbsPath(self.role + ("child",)))]
@@ -88,6 +92,8 @@ class AbsPath(VAbs):
         if name == "exists":
             def f(a, k, s, e):
                 if role == ("dst",): return s.ghost["g_D"]
+                if role == ("local", "file"): return VBool(z3.Bool(uid("other_file_exists")))
+                if role == ("local",): return VBool(z3.Bool(uid("local_root_exists")))
                 if role == ("dst", "start"): return s.ghost["g_S"]
                 if role == ("dst", "end"): return s.ghost["g_E"]
                 if role == ("src",): return s.consts["src_exists"]
@@ -144,6 +150,8 @@ class AbsFile(VAbs):
 def _open(args, kwargs, st, eng):
     """open(marker, "w"): creation is atomic (content irrelevant)"""
     p = args[0]
+    if isinstance(p, AbsPath) and p.role == ("local", "file"):
+        return AbsFile()          # written outside the destination folder: no effect on its markers
     if not isinstance(p, AbsPath) or p.role not in (("dst", "start"), ("dst", "end")):
         raise Unsupported("open() of a path that is not a marker file")
     D, S, E, C, U, W = cur(st)
@@ -194,6 +202,9 @@ def _copytree(args, kwargs, st, eng):
     src = args[0]
     if not isinstance(src, AbsPath) or src.role != ("src",):
         raise Unsupported("copytree from a path other than src")
+    sym = kwargs.get("symlinks", VBool(False))
+    eng.safety(st, "copytree:dereferences-symlinks", z3.Not(eng.truth(sym, st)), None,
+               "copytree(symlinks=True) copies links instead of the files they point to: not a byte-identical copy")
     extract(eng, st, "copytree", args[1], 1)
     return NONEV
 
@@ -244,4 +255,50 @@ def install(eng):
 
 SRC = TAbs(lambda name, idx: AbsPath(("src",)), "path:src")
 DST = TAbs(lambda name, idx: AbsPath(("dst",)), "path:dst")
+LOCAL = TAbs(lambda name, idx: AbsPath(("local",)), "path:local")
 REL = TAbs(lambda name, idx: AbsPath(("rel",)), "path:rel")
+
+
+# ---------------------------------------------------------------------------------------------- unzip jobs (joblib)
+JobF = z3.Function("UnzipJob", ValSort, ValSort, ValSort)
+
+
+def _unzip_external(args, kwargs, st, eng):
+    """copying_utils.unzip(src, dst): one extraction, recorded in ghost g_nunzip / g_unzipped (list of (src, dst) jobs)"""
+    if "g_nunzip" in st.ghost:
+        st.ghost["g_nunzip"] = VInt(st.ghost["g_nunzip"].t + 1)
+    if "g_unzipped" in st.ghost:
+        cur_ = st.ghost["g_unzipped"]
+        job = VVal(JobF(args[0].t, args[1].t))
+        st.ghost["g_unzipped"] = VSeq(cur_.len + 1, lambda i, c=cur_, j=job: ite(i == c.len, j, c.elem(i)), VAL)
+    return NONEV
+
+
+class AbsDelayed(VAbs):
+    label = "joblib.delayed"
+
+    def call_method(self, name, args, kwargs, st, eng):
+        return [(st, VVal(JobF(args[0].t, args[1].t)))]
+
+
+class AbsParallel(VAbs):
+    """joblib.Parallel(n_jobs)(jobs): runs every job of the list exactly once (order of completion irrelevant)"""
+    label = "joblib.Parallel"
+
+    def call_method(self, name, args, kwargs, st, eng):
+        jobs = eng.as_seq(args[0], st)
+        if "g_nunzip" in st.ghost:
+            st.ghost["g_nunzip"] = VInt(st.ghost["g_nunzip"].t + jobs.len)
+        if "g_unzipped" in st.ghost:
+            st.ghost["g_unzipped"] = eng.seq_concat(st.ghost["g_unzipped"], jobs)
+        return [(st, NONEV)]
+
+
+LIB["joblib.delayed"] = lambda a, k, s, e: AbsDelayed()
+LIB_CLASSES["joblib.Parallel"] = {"bases": ["object"], "construct": lambda a, k, s, e: [(s, AbsParallel())]}
+UNZIP_EXTERNAL = {"kappadata/copying/copying_utils.py::unzip": _unzip_external}
+
+
+def install_unzip(eng):
+    eng.externals.update(UNZIP_EXTERNAL)
+    eng.spec_builtins["JobOf"] = VFunc("JobOf", lambda a, k, s, e: VVal(JobF(a[0].t, a[1].t)))
